@@ -87,6 +87,7 @@ fn crash_part(run: &mut Run, a: &Args) -> (u64, u64) {
             manual_flush_every: [4, 7][ti % 2],
             hook_rotate_pct: 0,
             hook_flush_pct: 0,
+            stale_writer_after_failure: false,
         };
         let out = match crate::props::crash::trace_and_verify(&scratch, &format!("v{}", ti), &cfg, &w, a.seed.wrapping_add(500 + ti as u64), false, &|p| p.loss == Loss::Process, 0, None) {
             Ok(o) => o,
